@@ -152,36 +152,7 @@ def check(ctx):
                            "validation)", ok)
 
     # ------------------------------------------------------------------ R2
-    nx = method(repo, em, "next", own=True)
-    rn = evaluate(repo, nx)
-    ptr, stt = ("a", SELF, "_next_epoch_ptr"), ("a", SELF, "_next_start_time")
-    config_t = ("s", cfgs, ptr)
-    heap = rn.env.heap
-    rets = [r for r in rn.returns]
-    ok = False
-    detail = ""
-    if len(rets) == 1:
-        rt = rets[0][1]
-        want = ("call", ("a", config_t, "to_state"), (ptr, stt), ())
-        p_new = [val for loc, val, _, _ in rn.stores if loc == ptr]
-        s_new = [val for loc, val, _, _ in rn.stores if loc == stt]
-        ok = (rt == want and p_new == [("op", "+", ptr, c(1))]
-              and s_new == [("op", "+", stt, ("a", config_t, "duration"))])
-        detail = f"returns {short(rt)}; ptr' = {[pretty(x) for x in p_new]}; " \
-                 f"start' = {[pretty(x) for x in s_new]}"
-    ctx.ob("C16.R2", nx, "next() returns configs[ptr].to_state(ptr, start) and then advances "
-                         "ptr by 1 and start by that epoch's duration", ok, detail=detail,
-           stmt="clock " + detail[:200])
-    ini = {loc[2]: val for loc, val, _, _ in ri.stores if loc[1] == SELF}
-    ctx.ob("C16.R2", init, "index and start time begin at 0",
-           ini.get("_next_epoch_ptr") == c(0) and ini.get("_next_start_time") == c(0))
-    hm = method(repo, em, "has_more", own=True)
-    rh = evaluate(repo, hm).ret()
-    ctx.ob("C16.R2", hm, "has_more <=> ptr < number of configs",
-           rh == ("cmp", "<", ptr, ("call", ("n", "len"), (cfgs,), ())), detail=short(rh or ()))
-    ok = len(rn.raises) == 1 and any(a[0] == "call" and a[1] == ("a", SELF, "has_more")
-                                     and not p for a, p in rn.raises[0][0])
-    ctx.ob("C16.R2", nx, "next() raises when no epoch is left", ok)
+    clock_obligations(ctx, "C16.R2")
 
     # ------------------------------------------------------------------ R3
     se = repo.func("liesel.goose.warmup.stan_epochs")
@@ -333,3 +304,44 @@ def _is_arg_guard(a) -> bool:
     """Guards on the function arguments that raise ValueError at the top."""
     txt = pretty(a)
     return "warmup_duration" in txt and ("<" in txt) and "time_left" not in txt
+
+
+def clock_obligations(ctx, rule):
+    """EpochManager.next hands out consecutive indices and start times (shared with
+    C07.R3: global time continues across epochs)."""
+    repo = ctx.repo
+    em = repo.cls(EM)
+    cfgs = ("a", SELF, "_configs")
+    init = method(repo, em, "__init__", own=True)
+    ri = evaluate(repo, init)
+    nx = method(repo, em, "next", own=True)
+    rn = evaluate(repo, nx)
+    ptr, stt = ("a", SELF, "_next_epoch_ptr"), ("a", SELF, "_next_start_time")
+    config_t = ("s", cfgs, ptr)
+    heap = rn.env.heap
+    rets = [r for r in rn.returns]
+    ok = False
+    detail = ""
+    if len(rets) == 1:
+        rt = rets[0][1]
+        want = ("call", ("a", config_t, "to_state"), (ptr, stt), ())
+        p_new = [val for loc, val, _, _ in rn.stores if loc == ptr]
+        s_new = [val for loc, val, _, _ in rn.stores if loc == stt]
+        ok = (rt == want and p_new == [("op", "+", ptr, c(1))]
+              and s_new == [("op", "+", stt, ("a", config_t, "duration"))])
+        detail = f"returns {short(rt)}; ptr' = {[pretty(x) for x in p_new]}; " \
+                 f"start' = {[pretty(x) for x in s_new]}"
+    ctx.ob(rule, nx, "next() returns configs[ptr].to_state(ptr, start) and then advances "
+                         "ptr by 1 and start by that epoch's duration", ok, detail=detail,
+           stmt="clock " + detail[:200])
+    ini = {loc[2]: val for loc, val, _, _ in ri.stores if loc[1] == SELF}
+    ctx.ob(rule, init, "index and start time begin at 0",
+           ini.get("_next_epoch_ptr") == c(0) and ini.get("_next_start_time") == c(0))
+    hm = method(repo, em, "has_more", own=True)
+    rh = evaluate(repo, hm).ret()
+    ctx.ob(rule, hm, "has_more <=> ptr < number of configs",
+           rh == ("cmp", "<", ptr, ("call", ("n", "len"), (cfgs,), ())), detail=short(rh or ()))
+    ok = len(rn.raises) == 1 and any(a[0] == "call" and a[1] == ("a", SELF, "has_more")
+                                     and not p for a, p in rn.raises[0][0])
+    ctx.ob(rule, nx, "next() raises when no epoch is left", ok)
+
